@@ -235,6 +235,119 @@ fn read_after_error(ctx: &mut Ctx) {
     }
 }
 
+/// `BufRead::consume` on every layer of the message reader once that layer has failed: a no-op,
+/// never a panic (`read` / `fill_buf` keep returning `Err` there).  The layers are driven to their
+/// error through `fill_buf`, the call after which a `consume` is legitimate.
+fn consume_after_failed_fill_buf(ctx: &mut Ctx) {
+    use pgp::composed::PlainSessionKey;
+    use std::io::BufRead;
+    let site = "Message (every reader layer): fill_buf -> Err, then consume";
+    let mut inputs: Vec<(String, Vec<u8>, Option<PlainSessionKey>)> = Vec::new();
+    // compressed data with a corrupt stream (ZIP, ZLIB, BZip2), also with a few valid octets first
+    for alg in [1u8, 2, 3] {
+        for junk in [vec![0xFFu8; 20], vec![0x78, 0x9C, 0xFF, 0xFF, 0xFF, 0xFF, 0x00], vec![0x4B, 0x4C, 0xFF, 0xFE, 0x00, 0x01, 0x02], vec![]] {
+            let mut body = vec![alg];
+            body.extend_from_slice(&junk);
+            inputs.push((format!("compressed alg={alg} stream={}", hx(&junk)), crate::wire::packet(8, &body), None));
+        }
+    }
+    // literal / SED / SEIPD v1 / v2 whose body is shorter than declared (the packet body reader fails)
+    let lit = { let mut b = vec![b'b', 0, 0, 0, 0, 0]; b.extend_from_slice(&[b'x'; 40]); b };
+    for (name, tag, body, sk) in [
+        ("literal", 11u8, lit.clone(), None),
+        ("sed", 9u8, vec![0x55; 60], Some(PlainSessionKey::V3_4 { sym_alg: SymmetricKeyAlgorithm::AES128, key: vec![1u8; 16].into() })),
+        ("seipd-v1", 18u8, { let mut b = vec![1u8]; b.extend_from_slice(&[0x33; 70]); b }, Some(PlainSessionKey::V3_4 { sym_alg: SymmetricKeyAlgorithm::AES128, key: vec![1u8; 16].into() })),
+        ("seipd-v2", 18u8, { let mut b = vec![2u8, 7, 2, 0]; b.extend_from_slice(&[0x44; 32 + 90]); b }, Some(PlainSessionKey::V6 { key: vec![1u8; 16].into() })),
+    ] {
+        let mut p = crate::wire::packet(tag, &body);
+        // declare 5 octets more than follow
+        if p.len() > 2 && p[1] < 187 {
+            p[1] += 5;
+        }
+        inputs.push((format!("{name} body shorter than declared"), p, sk));
+    }
+    for (what, data, sk) in inputs {
+        let sk2 = sk.clone();
+        let t = Instant::now();
+        let r = guard(|| {
+            let mut steps = 0usize;
+            let Ok(m) = Message::from_bytes(&data[..]) else { return steps };
+            let m = match sk {
+                Some(sk) => match m.decrypt_with_session_key(sk) { Ok(m) => m, Err(_) => return steps },
+                None => m,
+            };
+            let mut m = if m.is_compressed() { match m.decompress() { Ok(m) => m, Err(_) => return steps } } else { m };
+            for _ in 0..4 {
+                steps += 1;
+                match m.fill_buf() {
+                    Ok(b) => {
+                        let n = b.len();
+                        m.consume(n);
+                        if n == 0 { break; }
+                    }
+                    Err(_) => {
+                        m.consume(0);
+                        m.consume(1);
+                    }
+                }
+            }
+            steps
+        });
+        no_panic(ctx, site, &format!("{what} data={}", hx(&data)), &r, t);
+        ctx.stat("consume_after_failed_fill_buf");
+        // the same through the readers in the public fields of `Message`
+        let t = Instant::now();
+        for round in 0..2 {
+        let sk2 = sk2.clone();
+        let r = guard(|| {
+            let Ok(m) = Message::from_bytes(&data[..]) else { return 0usize };
+            let mut steps = 0usize;
+            fn poke<R: BufRead>(r: &mut R, steps: &mut usize) {
+                for _ in 0..3 {
+                    *steps += 1;
+                    match r.fill_buf() {
+                        Ok(b) => {
+                            let n = b.len();
+                            r.consume(n);
+                            if n == 0 { break; }
+                        }
+                        Err(_) => {
+                            r.consume(0);
+                            r.consume(1);
+                        }
+                    }
+                }
+                let mut buf = [0u8; 16];
+                let _ = r.read(&mut buf);
+                r.consume(0);
+            }
+            match m {
+                Message::Compressed { reader, .. } => {
+                    if let Ok(mut d) = reader.decompress() {
+                        poke(&mut d, &mut steps);
+                    }
+                }
+                Message::Literal { mut reader, .. } => poke(&mut reader, &mut steps),
+                Message::Encrypted { mut edata, .. } => {
+                    // a session key that does not fit, then the right shape of key on damaged data
+                    // (a second `decrypt` on a failed object would go through its accessors, which panic in
+                    //  the Error state: known finding D4i; hence one decrypt per parse)
+                    let bad = PlainSessionKey::V3_4 { sym_alg: SymmetricKeyAlgorithm::AES256, key: vec![1u8; 5].into() };
+                    let key = if round == 0 { Some(bad) } else { sk2 };
+                    if let Some(k) = key {
+                        let _ = edata.decrypt(&k);
+                        poke(&mut edata, &mut steps);
+                    }
+                }
+                _ => {}
+            }
+            steps
+        });
+        no_panic(ctx, "readers in the public fields of Message: failed step, then fill_buf / consume / read", &format!("{what} round={round} data={}", hx(&data)), &r, t);
+        }
+    }
+}
+
 /// multi-octet fields placed across the 8 KiB refill boundary of the packet body reader, in packets
 /// whose declared length ends inside such a field, and the same inputs delivered through readers that
 /// hand out 1..7 octets per `fill_buf`: every `read_be_*` / `read_arr` / `take_bytes` of the parsers
@@ -507,6 +620,7 @@ fn partial_cut_containers(ctx: &mut Ctx) {
 pub fn run(ctx: &mut Ctx, ring: &Ring) {
     let mut rng = ChaCha8Rng::seed_from_u64(ctx.seed ^ 0xC04C);
     partial_cut_containers(ctx);
+    consume_after_failed_fill_buf(ctx);
     tiny_and_octet_sweeps(ctx);
     boundary_straddles(ctx, ring);
     read_after_error(ctx);
